@@ -1,7 +1,7 @@
 (* C16 (round 4): Arr_Proofs instantiated with the regenerated sizing functions (sqrt / cnst, every L <= 62, sizes < 2^62) *)
 From Coq Require Import ZArith Bool List Lia.
 From MomoCommon Require Import GenPrelude.
-From C16 Require Gen_SegSqrt Gen_SegCnst Gen_ArrSqrt Gen_ArrCnst SegMath SegSqrt_Proofs SegCnst_Proofs SegModel SegModel_Inst Arr_Proofs.
+From C16 Require Gen_SegSqrt Gen_SegCnst Gen_ArrSqrt Gen_ArrCnst Gen_ArrLog SegMath SegSqrt_Proofs SegCnst_Proofs SegModel SegModel_Inst Arr_Proofs.
 Local Open Scope Z_scope.
 Import SegMath SegModel_Inst.
 
@@ -157,6 +157,16 @@ Theorem sqrt_getitem_stable segs n c segs' n' c' i : Arr_Proofs.ginv seg maxi (S
   Gen_ArrSqrt.pvGetItem seg segs' n' c' i = Gen_ArrSqrt.pvGetItem seg segs n c i.
 Proof. intros. eapply (Arr_Proofs.getitem_stable seg idx cnt maxi (SCq L)); dq2. Qed.
 
+Theorem sqrt_SetCountCrt_spec alloc segs n c count : Arr_Proofs.ginv seg maxi (SCq L) n c -> 0 <= count < maxi ->
+  exists segs' n', Gen_ArrSqrt.SetCountCrt seg idx cnt alloc segs n c count = Ok (tt, segs', n', count) /\
+    (forall i, i < n -> segs' i = segs i) /\ n <= n' /\ (count <= c -> segs' = segs /\ n' = n) /\ Arr_Proofs.ginv seg maxi (SCq L) n' count.
+Proof. intros. eapply (Arr_Proofs.SetCountCrt_spec seg idx cnt alloc maxi (SCq L)); dq2. Qed.
+
+Theorem sqrt_pvDecCount_log segs n c glog gn count : 0 <= count <= c -> c < maxi ->
+  exists glog' m, Gen_ArrLog.pvDecCount seg cnt segs n c glog gn count = Ok (tt, count, glog', gn + 2 * Z.of_nat m) /\
+    (forall i, i < gn -> glog' i = glog i) /\ Arr_Proofs.tiles idx cnt (SCq L) glog' segs m gn c count.
+Proof. intros. eapply (Arr_Proofs.pvDecCount_log_spec seg idx cnt maxi (SCq L)); dq2. Qed.
+
 Theorem sqrt_ginv_empty : Arr_Proofs.ginv seg maxi (SCq L) 0 0.
 Proof. split; [lia|]. apply (SegModel_Inst.sqrt_inv_empty L HL). Qed.
 End Sqrt.
@@ -266,4 +276,12 @@ Theorem cnst_getitem_stable segs n c segs' n' c' i : Arr_Proofs.ginv seg maxi (S
   (forall k, k < n -> segs' k = segs k) -> 0 <= i < c -> i < c' ->
   Gen_ArrCnst.pvGetItem seg segs' n' c' i = Gen_ArrCnst.pvGetItem seg segs n c i.
 Proof. intros. eapply (Arr_Proofs.getitem_stable seg idx cnt maxi (SCc L)); dc2. Qed.
+Theorem cnst_SetCountCrt_spec alloc segs n c count : Arr_Proofs.ginv seg maxi (SCc L) n c -> 0 <= count < maxi ->
+  exists segs' n', Gen_ArrCnst.SetCountCrt seg idx cnt alloc segs n c count = Ok (tt, segs', n', count) /\
+    (forall i, i < n -> segs' i = segs i) /\ n <= n' /\ (count <= c -> segs' = segs /\ n' = n) /\ Arr_Proofs.ginv seg maxi (SCc L) n' count.
+Proof. intros. eapply (Arr_Proofs.SetCountCrt_spec seg idx cnt alloc maxi (SCc L)); dc2. Qed.
+Theorem cnst_pvDecCount_log segs n c glog gn count : 0 <= count <= c -> c < maxi ->
+  exists glog' m, Gen_ArrLog.pvDecCount seg cnt segs n c glog gn count = Ok (tt, count, glog', gn + 2 * Z.of_nat m) /\
+    (forall i, i < gn -> glog' i = glog i) /\ Arr_Proofs.tiles idx cnt (SCc L) glog' segs m gn c count.
+Proof. intros. eapply (Arr_Proofs.pvDecCount_log_spec seg idx cnt maxi (SCc L)); dc2. Qed.
 End Cnst.
